@@ -46,7 +46,21 @@ def _run_all(sr, tier):
     for s in sites:
         cmds.append([exes[4], s[0], str(2 if tier == "quick" else 3)] + ["%.10g" % x for x in s[1:]])
     build_s = time.time() - t0
-    res = vlib.run_jsonl(cmds, timeout=900 if tier == "quick" else 3000)
+    res = vlib.run_jsonl(cmds, timeout=900 if tier == "quick" else 600)
+    if tier != "quick":
+        # hard budget: a primitive that does not finish at the thorough bound within 600 s is decided at the quick bound (K lowered by 1)
+        redo = [i for i, r in enumerate(res) if r["timed_out"]]
+        if redo:
+            cmds2 = []
+            for i in redo:
+                c = list(cmds[i])
+                if len(c) > 2 and c[2].isdigit() and int(c[2]) > 2:
+                    c[2] = str(int(c[2]) - 1)
+                cmds2.append(c)
+            res2 = vlib.run_jsonl(cmds2, timeout=600)
+            for i, r in zip(redo, res2):
+                print("prim_layer: %s did not finish at the thorough bound; re-run as %s: %s" % (cmds[i][1:], cmds2[redo.index(i)][1:], "timed out again" if r["timed_out"] else "decided"))
+                res[i] = r
     _cache[key] = (res, build_s, len(sites))
     return _cache[key]
 
